@@ -150,6 +150,14 @@ frecipe('derived/L2sq*a', ('rn', 'discr'), 'pl', [FUN + 'FunctionalRightScalarMu
     lambda ctx, sp: S.L2NormSquared(sp) * ctx.real('c0', nonzero=True))
 frecipe('derived/Huber*(-2)', ('rn',), 'pl', [FUN + 'FunctionalRightScalarMult'], n=1)(
     lambda ctx, sp: S.Huber(sp, 0.5) * (-2.0))
+frecipe('derived/Nonneg*(-1)', ('rn', 'discr'), 'ind', [FUN + 'FunctionalRightScalarMult'], n=1)(
+    lambda ctx, sp: S.IndicatorNonnegativity(sp) * (-1.0))
+frecipe('derived/Box*(-2)', ('rn',), 'ind', [FUN + 'FunctionalRightScalarMult'], n=1)(
+    lambda ctx, sp: S.IndicatorBox(sp, -1, 2) * (-2.0))
+frecipe('derived/L1.translated*(-1)', ('rn',), 'pl', [FUN + 'FunctionalRightScalarMult'], n=1)(
+    lambda ctx, sp: S.L1Norm(sp).translated(sp.element([1.5][:sp.size])) * (-1.0))
+frecipe('derived/L1.translated*a', ('rn',), 'pl', [FUN + 'FunctionalRightScalarMult'], n=1)(
+    lambda ctx, sp: S.L1Norm(sp).translated(sp.element([1.5][:sp.size])) * ctx.real('c0', nonzero=True))
 frecipe('derived/L1.translated', ALLS, 'pl', [FUN + 'FunctionalTranslation'], n=1)(
     lambda ctx, sp: S.L1Norm(sp).translated(ctx.element(sp, 't')))
 frecipe('derived/L2sq.translated', ('rn', 'discr'), 'pl', [FUN + 'FunctionalTranslation'])(
